@@ -47,6 +47,7 @@ fn word_of(s: WeekdaySet) -> u8 {
 }
 
 pub fn run(c: &mut Ctx) {
+    crate::aliases::c19(c);
     // ---- finite parts, exhaustive -------------------------------------------------------------
     for (i, w) in WD.iter().enumerate() {
         c.op(&format!("wd.succ {i}"), &gs(|| w.succ(), |x| wi(x).to_string()));
